@@ -133,4 +133,42 @@ theorem translated_setmod_is_model (c : Counter.Cfg) (v : Counter.Num) :
   unfold Gen.Tr.counterSetmod Counter.reduce
   cases c.mod <;> rfl
 
+/-- the value returned by `_event_inc` (amount defaulting as in the signature) IS the model's result -/
+theorem translated_inc_is_model (c : Counter.Cfg) (out : Counter.Num) (a : Option Counter.Num) :
+    ∃ v, Counter.step c out (.inc a) = (Counter.store out v, .ret v)
+      ∧ v.q = Gen.Tr.counterInc (c.mod.map (·.q)) out.q (a.map (·.q)) := by
+  refine ⟨Counter.reduce c (out.add (a.getD Counter.one)), rfl, ?_⟩
+  unfold Gen.Tr.counterInc
+  rw [translated_setmod_is_model c ⟨out.q + (a.map (·.q)).getD 1, (out.add (a.getD Counter.one)).k⟩]
+  cases a <;> cases hm : c.mod <;> simp [Counter.reduce, hm, Counter.Num.add, Counter.Num.mod, Counter.one]
+
+/-- the same for `_event_dec` -/
+theorem translated_dec_is_model (c : Counter.Cfg) (out : Counter.Num) (a : Option Counter.Num) :
+    ∃ v, Counter.step c out (.dec a) = (Counter.store out v, .ret v)
+      ∧ v.q = Gen.Tr.counterDec (c.mod.map (·.q)) out.q (a.map (·.q)) := by
+  refine ⟨Counter.reduce c (out.sub (a.getD Counter.one)), rfl, ?_⟩
+  unfold Gen.Tr.counterDec
+  rw [translated_setmod_is_model c ⟨out.q - (a.map (·.q)).getD 1, (out.sub (a.getD Counter.one)).k⟩]
+  cases a <;> cases hm : c.mod <;> simp [Counter.reduce, hm, Counter.Num.sub, Counter.Num.mod, Counter.one]
+
+/-- `_event_put` (its `value` is a required argument: the translator refuses a signature with a default) -/
+theorem translated_put_is_model (c : Counter.Cfg) (out x : Counter.Num) :
+    ∃ v, Counter.step c out (.put (some x)) = (Counter.store out v, .ret v)
+      ∧ v.q = Gen.Tr.counterPut (c.mod.map (·.q)) x.q :=
+  ⟨Counter.reduce c x, rfl, (translated_setmod_is_model c x).symm⟩
+
+/-- `_event_reset` -/
+theorem translated_reset_is_model (c : Counter.Cfg) (out : Counter.Num) :
+    ∃ v, Counter.step c out .reset = (Counter.store out v, .ret v)
+      ∧ v.q = Gen.Tr.counterReset (c.mod.map (·.q)) c.initdef.q :=
+  ⟨Counter.reduce c c.initdef, rfl, (translated_setmod_is_model c c.initdef).symm⟩
+
+/-- the constructor's refusal IS the negation of the model's validity predicate -/
+theorem translated_modulo_check_is_model (c : Counter.Cfg) :
+    Gen.Tr.counterRefusesModulo (c.mod.map (·.q)) = !c.valid := by
+  unfold Gen.Tr.counterRefusesModulo Counter.Cfg.valid
+  cases c.mod with
+  | none => rfl
+  | some m => simp only [Option.map_some, bne, Bool.not_not]; rfl
+
 end Edzed.TrTie
